@@ -21,6 +21,7 @@ Record sysflush := mkFlush {
   f_gid : nat;                    (* which aggregation group flushed (each has its own marker entry) *)
   f_now : Z; f_tzt : list (string * Z);
   f_silenced : bool;              (* every alert of the flush is covered by an active silence (silence stage, after the time stages) *)
+  f_sink : bool;                  (* the route's receiver has at least one integration (false: a null receiver) *)
   f_notified : bool; f_by : list string; f_muted : bool;
   (* GET /api/v2/alerts/groups right after this flush: EVERY listed group of the route with its mutedBy, and
      the groups listed for ?muted=false (group ids ascending) *)
@@ -88,7 +89,7 @@ Fixpoint sys_model (m : intervals) (mute active : list string) (markers : nat ->
       let '(p, e, mk) := time_stages (tz_table (f_tzt f)) m (sys_ctx mute active (f_now f)) (markers (f_gid f)) in
       (* a notification leaves iff the time stages pass and the silencer leaves an alert; the marker is written
          by the time stages at EVERY flush, silenced or not *)
-      (p && negb (f_silenced f), e, marker_muted mk) :: sys_model m mute active (upd markers (f_gid f) mk) r
+      (p && negb (f_silenced f) && f_sink f, e, marker_muted mk) :: sys_model m mute active (upd markers (f_gid f) mk) r
   end.
 
 (* what the API must report after each flush, for every group it lists: that group's own marker entry (written at
